@@ -281,7 +281,11 @@ class DGen:
             else:
                 toks += self.redir(d, plain)
         if npre == 0 or r.random() < 0.75:
-            toks.append(self.W(self.word(d, cmdpos=True)))
+            if npre > 0 and r.random() < 0.2:
+                # after an assignment or redirection prefix a reserved word is an ordinary command name
+                toks.append(self.W([self.L(r.choice(RESERVED))]))
+            else:
+                toks.append(self.W(self.word(d, cmdpos=True)))
             for _ in range(r.choice([0, 1, 1, 2, 3])):
                 if r.random() < 0.8:
                     toks.append(self.W(self.word(d)))
@@ -376,9 +380,13 @@ class DGen:
             toks = [Tok("CASE"), self.W(self.word(1))] + self.nls(0.15) + [Tok("IN")] + self.nls(0.3)
             n = r.choice([0, 1, 2, 3])
             for i in range(n):
-                if r.random() < 0.4:
+                lp = r.random() < 0.4
+                if lp:
                     toks.append(Tok("LPAREN"))
-                toks.append(self.W(self.casepat()))
+                if lp and r.random() < 0.15:
+                    toks.append(self.W([self.L("esac")]))     # after '(' the word esac is a pattern
+                else:
+                    toks.append(self.W(self.casepat()))
                 while r.random() < 0.3:
                     toks += [Tok("PIPE"), self.W(self.casepat())]
                 toks.append(Tok("RPAREN"))
